@@ -7,4 +7,6 @@ mkdir -p /verif/.cache /verif/.bin /verif/evidence /verif/replays
 cd /verif/mc
 cp /repo/go.sum go.sum
 go build -tags verif -o /verif/.bin/mc ./cmd/mc
+# pre-warm the -race build used by the C20 race pass
+go build -race -tags verif -o /verif/.bin/mc-c20race ./cmd/mc-c20race
 echo "setup ok"
